@@ -593,8 +593,24 @@ class Interp:
             return VARIANT_IDX[v[2]]
         raise Stop('unknown variant index for %s::%s' % (v[1], v[2]))
 
+    def _outcome_name(self, key, val):
+        """for an opaque Result/Option inspected by an explicit `match`: the same 'outcome' event that `?` / combinators record"""
+        ty = self.discr_types.get(key) or ''
+        if ty.startswith('std::result::Result<') or ty.startswith('core::result::Result<'):
+            return {0: 'Ok', 1: 'Err'}.get(val)
+        if ty.startswith('std::option::Option<') or ty.startswith('core::option::Option<'):
+            return {0: 'None', 1: 'Some'}.get(val)
+        return None
+
     def assume_discr(self, st, d, v, others, dty):
         key = d[1] if d[0] == 'discr' else d
+        if d[0] == 'discr' and key is not None and key[0] in ('app',) and key not in st.assume:
+            val = v if v is not None else ((1 - others[0]) if (len(others) == 1 and others[0] in (0, 1)) else None)
+            nm = self._outcome_name(key, val) if val is not None else None
+            if nm:
+                st.assume[key] = val
+                st.ev('outcome', key, nm)
+                return
         neg = False
         if d[0] == 'app' and d[1] == 'Not':
             key = d[2][0]
